@@ -29,6 +29,35 @@ CLAIMS = {
              "both sides); detection of ALTERED bytes rests on a 64-bit hash and is not claimed; the 256-byte driver loops of reduce_encode/decode are "
              "not encoded.",
         technique=TECH),
+    "C14": dict(
+        level="model_checking", design="DESIGN.md section 3, C14",
+        text="Bounded model checking of the real load_bss_data_section (both passes) and the ref/expr initialisation loops of MIR_link on directly "
+             "constructed item lists: placement (section heads, adjacency, no gaps, declaration order, one allocation of the rounded total size) and "
+             "contents (data bytes, zero bss, ref = target address + displacement, expr = interpreter value truncated to the result type) are decided "
+             "by the solver for all payload bytes, displacements and expression values of each enumerated run of items.",
+        note="The STRUCTURE of a run (item kinds, sizes, named flags, ref targets) is an enumerated/sampled configuration (35 shapes; all single items, "
+             "sampled runs of 2-5 items from VERIF_SEED) because symbolic sizes put every byte store at a symbolic offset (no verdict); ref displacement "
+             "in [0, 2^40] (CBMC pointer encoding); MIR_interp is a stub returning an arbitrary value; lref values are set by the engines, only their "
+             "placement is checked; x86-64 type sizes.",
+        technique=TECH + "; configuration enumeration for the structural part"),
+    "C09": dict(
+        level="model_checking", design="DESIGN.md section 3, C09",
+        text="Bounded model checking of the real #if evaluator (eval, eval_binop_operands of c2mir.c) on hand-built expression trees against a "
+             "reference written from C11 6.10.1p4/6.6/6.5 (value and intmax_t/uintmax_t type of every operator), with all 64-bit leaf values symbolic, "
+             "plus stringify/destringify round trip for all short byte strings.  Only the last sentence of the property (#if evaluation) is decided.",
+        note="NOT decided: macro expansion, token pasting, rescanning, blue paint, directive processing (need the pre-processor context built by "
+             "pre_init; not encoded).  Bounds: tree depth <= 2, ?: conditions constant 0/1 (both enumerated), leaf kinds enumerated, values symbolic; "
+             "division by zero, INT64_MIN/-1, shift counts >= 64 and signed overflow assumed away in evaluated positions; arithmetic right shift of "
+             "negative values assumed (gcc/x86-64).",
+        technique=TECH),
+    "C07": dict(
+        level="model_checking", design="DESIGN.md section 3, C07",
+        text="Bounded model checking of the conversion kernel of c2mir only: integer_promotion and arithmetic_conversion for all pairs of basic/enum "
+             "types against C11 6.3.1.1/6.3.1.8 (LP64), and cast_value for every (source, target) basic type pair and every source value against C casts.",
+        note="Everything else in the property (parser, check(), gen(), whole-program behaviour against the reference compiler) is NOT decided by this "
+             "check: no harness can go through c2mir_init and the AST/symbol-table heap is beyond symbolic execution.  CBMC models long double as a "
+             "128-bit IEEE format; pointer paths of cast_value are not encoded; float->int out of range assumed away.",
+        technique=TECH),
 }
 
 NOT_APPLICABLE = {
